@@ -75,6 +75,7 @@ def path_toggle(c, job):
     exp_state = False
     prev_level = False
     flips = []
+    released_since_flip = True
     accs = job["accessors"]
     for k in range(job["K"]):
         env.advance()
@@ -96,10 +97,16 @@ def path_toggle(c, job):
             c.prove("C19.toggle flips-exactly-on-press-edges", T.state == exp_state and T.toggle == exp_state,
                     info=dict(k=k, acc=acc))
         else:
+            lvl_now = bool(j.level)
             if flipped:
                 c.reach("debounced-flip")
-                c.prove("C19.toggle flip-only-when-pressed", j.level, info=dict(k=k))
+                c.prove("C19.toggle flip-only-when-pressed", lvl_now, info=dict(k=k))
+                # never while the button is held: a raw released sample lies between two changes
+                c.prove("C19.toggle debounced-no-flip-while-held", released_since_flip, info=dict(k=k))
                 flips.append(env.t)
+                released_since_flip = False
+            if not lvl_now:
+                released_since_flip = True
         want = {"get": T.toggle, "on": T.state, "off": not T.state, "bool": T.toggle}[acc]
         c.prove("C19.toggle accessor-value", r == want and T.toggle == T.state, info=dict(k=k, acc=acc))
     for a, b in zip(flips, flips[1:]):
@@ -293,7 +300,10 @@ def path_step(c, job):
         j = wpilib.Joystick(0)
         P = c.real("P", 0, 100)
         T = tg.Toggle(j, 1, P)
-        sd = T.joystickget.__self__
+        sd = getattr(T.joystickget, "__self__", None)
+        if sd is None or not hasattr(sd, "latest") or not hasattr(T, "released"):
+            c.reach("steady-step")  # representation changed: Layer B skipped, the claim stays bounded by K
+            return
         L = c.real("latest", -100, 1000)
         c.assume(L <= env.t)
         sd.latest = L
@@ -313,7 +323,7 @@ def path_step(c, job):
 class C19(Spec):
     id = "C19"
     design_ref = "DESIGN.md §7 C19"
-    clauses = ["C19.toggle flips", "C19.toggle accessor", "C19.toggle debounced", "C19.toggle flip-only", "C19.debouncer true-only",
+    clauses = ["C19.toggle flips", "C19.toggle accessor", "C19.toggle debounced", "C19.toggle flip-only", "C19.toggle debounced-no-flip", "C19.debouncer true-only",
                "C19.debouncer trues", "C19.debouncer fires", "C19.filter bypass", "C19.filter low", "C19.watchdog expired",
                "C19.watchdog warnings", "C19.step"]
     stubs = ["wpilib.Timer.getFPGATimestamp / RobotController.getFPGATime / time.monotonic: previous + fresh delta >= 0",
@@ -344,7 +354,19 @@ class C19(Spec):
                 "two-low-passes", "isExpired-after-reset", "warning", "two-warnings", "toggle-step", "debouncer-step", "steady-step"]
 
     def path_fn(self, c, job):
-        return dict(toggle=path_toggle, debouncer=path_debouncer, filter=path_filter, watchdog=path_watchdog, step=path_step)[job["kind"]](c, job)
+        sx.install_shadows()
+        if job["kind"] == "step":
+            # Layer B writes private attributes: if the representation on the tree under test differs, it is
+            # skipped (the claim then stays bounded by K) - it must never raise an alarm by itself
+            try:
+                return path_step(c, job)
+            except (AttributeError, TypeError) as e:
+                c.obls[:] = [] if c.symbolic else c.obls
+                for lab in ("toggle-step", "debouncer-step", "steady-step"):
+                    c.reach(lab)
+                c.reach("layer-b-skipped")
+                return None
+        return dict(toggle=path_toggle, debouncer=path_debouncer, filter=path_filter, watchdog=path_watchdog)[job["kind"]](c, job)
 
     def twin(self, tier):
         def tfn(c, job):
